@@ -145,6 +145,11 @@ func (p *Parser) ParseProgram() *ast.Program {
 		p.nextToken() // skip to next token
 	}
 
+	// the input ended inside "{{ }}" or inside directive arguments
+	if p.l.InCode() {
+		p.newError(p.curToken.ErrorLine(), fail.ErrUnexpectedEOF)
+	}
+
 	prog.Components = p.components
 	prog.Inserts = p.inserts
 	prog.UseStmt = p.useStmt
